@@ -559,6 +559,23 @@ func ruleTB4() Rule {
 						}
 					}
 				}
+				// the same tests written as comparisons (`case r == '?' || r == '*'`, `if r == '['`)
+				fi := f.Info()
+				f.OwnNodes(func(n ast.Node) bool {
+					be, ok := n.(*ast.BinaryExpr)
+					if !ok || be.Op != token.EQL {
+						return true
+					}
+					for _, e := range []ast.Expr{be.X, be.Y} {
+						if _, isLit := ast.Unparen(e).(*ast.BasicLit); !isLit {
+							continue
+						}
+						if v, isC := constInt(fi, e); isC && v != 0xFFFD && v > 0 {
+							got[rune(v)] = true
+						}
+					}
+					return true
+				})
 				key := f.Name + "|special-set"
 				if runeSetString(got) == wantS {
 					rr.OK(f, key, f.Pos(), "equal", "treats "+wantS+" as special")
